@@ -601,6 +601,22 @@ class Interp:
                 return ".".join([b.name] + list(reversed(parts)))
         return None
 
+    def _enum_member(self, v):
+        """is the residual `Class.MEMBER` of an Enum class of the analysed source"""
+        if not isinstance(v, Residual) or v.text.count(".") != 1 or self.idx is None:
+            return False
+        c, m = v.text.split(".")
+        return self.idx.has_cls(c) and len(self.idx.classes[c]) == 1 and "Enum" in self.idx.classes[c][0].bases and m in self.idx.classes[c][0].class_assigns
+
+    def _const_leaves(self, v):
+        """a constant table: containers over literals, compiled patterns and enum members"""
+        import re as _re
+        if isinstance(v, (list, tuple, set, frozenset)):
+            return all(self._const_leaves(x) for x in v)
+        if isinstance(v, dict):
+            return all(self._const_leaves(k) and self._const_leaves(x) for k, x in v.items())
+        return v is None or isinstance(v, (str, int, float, bool, _re.Pattern)) or self._enum_member(v)
+
     def lookup(self, key):
         """value of a store key: explicit store, then rule domain, else None (unknown)"""
         if key in self.store:
@@ -613,6 +629,14 @@ class Interp:
         # class-level literal constants (e.g. alias lists hoisted into the class)
         if "." in key:
             base, attr = key.rsplit(".", 1)
+            if attr in ("value", "name") and self._enum_member(Residual(base)):
+                c, m = base.split(".")
+                if attr == "name":
+                    return True, m
+                try:
+                    return True, ast.literal_eval(self.idx.classes[c][0].class_assigns[m])
+                except (ValueError, SyntaxError):
+                    pass
             cls = self.types.get(base) or (base if self.idx is not None and self.idx.has_cls(base) and len(self.idx.classes[base]) == 1 else None)
             if cls and self.idx is not None and self.idx.has_cls(cls):
                 for c in self.idx.mro(cls):
@@ -627,8 +651,7 @@ class Interp:
                                 v = self.eval(c.class_assigns[attr], {})
                             except (Undecidable, Raised):
                                 break
-                            import re as _re
-                            if isinstance(v, (Residual, Obj)) or not isinstance(v, (str, int, float, tuple, _re.Pattern)):
+                            if isinstance(v, (Residual, Obj)) or not self._const_leaves(v):
                                 break
                         if isinstance(v, (list, dict, set)):
                             # a class-level container is one shared object: later reads and mutations see the same one
@@ -655,6 +678,10 @@ class Interp:
             return v
         if e.id in ("True", "False", "None"):
             return {"True": True, "False": False, "None": None}[e.id]
+        # a private module-level function of the current file used as a value (a dispatch table entry, a callback)
+        if (self.auto_private and self._fi_stack and self.idx is not None and e.id.startswith("_") and not e.id.startswith("__")
+                and (self._fi_stack[-1].file, e.id) in getattr(self.idx, "module_funcs", {})):
+            return _MethodRef(self, self.idx.module_funcs[(self._fi_stack[-1].file, e.id)], "__module__")
         # a module-level literal constant of the file the current function lives in
         if self._fi_stack and self.idx is not None:
             node = getattr(self.idx, "module_consts", {}).get((self._fi_stack[-1].file, e.id))
@@ -907,6 +934,8 @@ class Interp:
                 return Residual(f"{txt(base) if isinstance(base, Residual) else unparse(e.value)}[{'' if lo is None else txt(lo)}:{'' if hi is None else txt(hi)}]")
             return base[lo:hi:st]
         i = self.eval(e.slice, frame)
+        if isinstance(base, dict) and isinstance(i, Residual) and self._enum_member(i) and i in base:
+            return base[i]   # a table keyed by enum members
         if isinstance(base, Residual) or isinstance(i, Residual):
             key = f"{txt(base) if isinstance(base, Residual) else unparse(e.value)}[{txt(i)}]"
             ok, v = self.lookup(key)
